@@ -91,8 +91,8 @@ def search_case(ctx, case, logpath) -> None:
     full = sut.full_game(values)
     unknown = [m for m in range(1 << n) if m not in start]
     want_sets = [list(c) for i in range(min(k, len(unknown)) + 1) for c in combinations(unknown, i)]
-    scale = max(1.0, float(np.max(np.abs(np.array(values)))))
-    tol = 1e-9 * (1.0 + scale * (1 << n))
+    scale = float(np.max(np.abs(np.array(values))))
+    tol = sut.gap_tol(n, scale)
     base_gap = None
     results = {}
     for procs in case["processes"]:
@@ -180,7 +180,7 @@ def best_states_case(ctx, case, logpath) -> None:
     n, comp, gapname, k, reps = case["n"], case["computer"], case["gap"], case["k"], case["samples"]
     inst = ModelInstance(number_of_players=n, game_class=comp, game_generator=case["generator"], gap_function=gapname,
                          seed=case["seed"])
-    rec = Recorder(inst.game_generator_fn)
+    rec = Recorder(inst.game_generator_fn, case.get("scale", 1.0))
     inst.game_generator_fn = rec
     env = inst.get_env()
     try:
@@ -194,8 +194,8 @@ def best_states_case(ctx, case, logpath) -> None:
     games = rec.games[-reps:]
     start = sorted(minimal_masks(n))
     unknown = gen.explorable(n)
-    scale = max(1.0, max(float(np.max(np.abs(np.array(g)))) for g in games))
-    tol = 1e-9 * (1.0 + scale * (1 << n))
+    scale = max(float(np.max(np.abs(np.array(g)))) for g in games)
+    tol = sut.gap_tol(n, scale)
     if len(events) != reps * sum(1 for i in range(k + 1) for _ in combinations(unknown, i)):
         ctx.violation("sets-not-evaluated-exactly-once", f"best-states: {len(events)} worker events for {reps} sampled games, k={k}", case)
     prev_mean = None
@@ -240,6 +240,8 @@ def run(ctx) -> None:
         else:
             fam = rng.choice(gen.SA_FAMILIES)
             values = gen.sa_game(rng, n, fam)[0]
+        sc = rng.choice(sut.SCALES)
+        values = [v * sc for v in values]
         start = sorted(minimal_masks(n))
         if rng.random() < 0.4:
             start = sorted(set(start) | set(rng.sample(gen.explorable(n), rng.randint(1, 3))))
@@ -257,7 +259,8 @@ def run(ctx) -> None:
             nn = rng.choice([3, 4])
             best_states_case(ctx, {"n": nn, "generator": g, "computer": comp2, "gap": rng.choice(list(GAP_FUNCTIONS)),
                                    "k": rng.randint(1, 3), "samples": rng.randint(1, 4 if quick else 5),
-                                   "processes": [rng.choice(proc_choices)], "seed": rng.randint(0, 10**6)}, logpath)
+                                   "processes": [rng.choice(proc_choices)], "seed": rng.randint(0, 10**6),
+                                   "scale": rng.choice(sut.SCALES)}, logpath)
 
 
 def replay(ctx, case) -> None:
